@@ -10,7 +10,11 @@ import (
 
 func (g *Gen) rootArg(k int) d128.Decimal {
 	neg := k == 3 && g.r.Intn(2) == 0
-	switch g.r.Intn(7) {
+	switch g.r.Intn(9) {
+	case 7: // coefficients at the word boundaries of the implementation's wide integer arithmetic
+		return mk(neg, g.wrapCoef(), randExp(g.r))
+	case 8:
+		return mk(neg, g.boundaryCoef(), randExp(g.r))
 	case 0: // perfect power and its neighbours
 		nd := 1 + g.r.Intn(35/k)
 		s := randDigits(g.r, nd)
